@@ -185,6 +185,46 @@ def h_step(cls: int, op: int, pa: bool, va: int, pb: bool, vb: int, ab_first: bo
     return False
 
 
+KEYS3 = ["ab", "AB", "Ab", b"ab", b"aB", "cd", "CD"]
+
+
+def h_update3(cls: int, mode: int, pa: bool, k: int, k2: int, k3: int) -> bool:
+    """
+    update()/constructor with THREE entries whose names may collide in any spelling pattern
+    (a, A, a / str, bytes, str ...), given as pairs, as a mapping plus keywords, or as pairs plus
+    keywords: the result is what assigning the entries one after the other gives.
+
+    pre: 0 <= cls < len(CLASSES) and pinned("cls", cls)
+    pre: 0 <= mode <= 3 and pinned("mode", mode)
+    pre: 0 <= k < len(KEYS3) and 0 <= k2 < len(KEYS3) and 0 <= k3 < len(KEYS3)
+    post: _
+    """
+    cls = pin("cls", cls)
+    mode = pin("mode", mode)
+    klass = CLASSES[cls]
+    key, key2, key3 = KEYS3[k], KEYS3[k2], KEYS3[k3]
+    d, ref = _build(klass, pa, 0, False, 0, True)
+    if mode == 0:
+        d.update([(key, 1), (key2, 2), (key3, 3)])
+    elif mode == 1:
+        if isinstance(key3, bytes):
+            return True
+        d.update([(key, 1), (key2, 2)], **{key3: 3})
+    elif mode == 2:
+        if isinstance(key3, bytes) or key == key2:
+            return True
+        d.update({key: 1, key2: 2}, **{key3: 3})
+    else:
+        d = klass([(key, 1), (key2, 2), (key3, 3)])
+        ref = {}
+    ref[_up(key)] = 1
+    ref[_up(key2)] = 2
+    ref[_up(key3)] = 3
+    if mode == 3:
+        return dict(OrderedDict.items(d)) == ref and all(x == x.upper() for x in OrderedDict.keys(d))
+    return _same(d, ref)
+
+
 POOL = ["SUMMARY", "DTSTART", "UID", "X-A", "ATTENDEE", "A"]
 
 
